@@ -8,6 +8,7 @@ import (
 	"time"
 
 	zvatomic "berty.tech/go-ipfs-log/zvatomic"
+	"berty.tech/go-ipfs-log/zvlitmus"
 	"berty.tech/go-ipfs-log/zvsync"
 
 	"verif/engine/sched"
@@ -246,6 +247,47 @@ func litmusPrograms() []litmus {
 			var id, key zvatomic.Value
 			set := func(i, k string) func() { return func() { key.Store(k); id.Store(i) } }
 			return inst([]func(){set("a", "A"), set("b", "B")}, func() string { return fmt.Sprint(id.Load(), "/", key.Load()) })
+		}},
+		// plain Go through the rewriter (engine/zvlitmus)
+		{name: "rewritten-select:value-or-timeout", outcomes: []string{"done", "got 7"}, make: func() *sched.Instance {
+			ch := make(chan int, 1)
+			out := ""
+			return inst([]func(){func() {
+				ctx, cancel := zvsync.WithTimeout(context.Background(), time.Second)
+				defer cancel()
+				out = zvlitmus.RecvOrDone(ctx, ch)
+			}, func() { zvlitmus.Send(ch, 7) }}, func() string { return out })
+		}},
+		{name: "rewritten-select:nobody-sends-timer-ends-it", outcomes: []string{"done"}, make: func() *sched.Instance {
+			ch := make(chan int, 1)
+			out := ""
+			return inst([]func(){func() {
+				ctx, cancel := zvsync.WithTimeout(context.Background(), time.Second)
+				defer cancel()
+				out = zvlitmus.RecvOrDone(ctx, ch)
+			}}, func() string { return out })
+		}},
+		{name: "rewritten-select:nobody-sends-no-timer-deadlocks", outcomes: []string{"deadlock"}, deadlock: true, make: func() *sched.Instance {
+			ch := make(chan int, 1)
+			out := "deadlock"
+			return inst([]func(){func() { out = zvlitmus.RecvOrDone(context.Background(), ch) }}, func() string { return out })
+		}},
+		{name: "rewritten-select:loop-with-break", outcomes: []string{"6"}, make: func() *sched.Instance {
+			ch, stop := make(chan int, 1), make(chan struct{})
+			sum := -1
+			return inst([]func(){func() { sum = zvlitmus.Drain(ch, stop) }, func() { zvlitmus.Produce(ch, stop, 1, -1, 2, 3) }}, func() string { return fmt.Sprint(sum) })
+		}},
+		{name: "rewritten-atomics:cas-loop-loses-nothing", outcomes: []string{"2"}, make: func() *sched.Instance {
+			c := &zvlitmus.Counter{}
+			return inst([]func(){c.IncCAS, c.IncCAS}, func() string { return fmt.Sprint(c.Value()) })
+		}},
+		{name: "rewritten-atomics:load-then-store-loses-an-update", outcomes: []string{"1", "2"}, make: func() *sched.Instance {
+			c := &zvlitmus.Counter{}
+			return inst([]func(){c.IncLoadStore, c.IncLoadStore}, func() string { return fmt.Sprint(c.Value()) })
+		}},
+		{name: "rewritten-go+waitgroup+mutex", outcomes: []string{"6"}, make: func() *sched.Instance {
+			total := 0
+			return inst([]func(){func() { total = zvlitmus.FanOut(3) }}, func() string { return fmt.Sprint(total) })
 		}},
 		{name: "trylock-and-tryacquire", outcomes: []string{"1", "2"}, make: func() *sched.Instance {
 			var mu zvsync.Mutex
